@@ -561,6 +561,97 @@ def mk_set_order(kind, n, mode):
     return SetOrder(kind, n, mode)
 
 
+# ------------------------------------------------------------------ K7: id()-derived names never reach a result
+def k_id_names(P, s, t, third):
+    """schemas A<s> {<t>: string, zz: [string]} and <third> {x: string}; when <third> equals the context name the parser
+    derives for property <t> of A<s>, the parser falls back to a name built from id().  Returns every name of the result."""
+    ext = import_module(P.__name__ + ".core.loader.schemas.extractor")
+    inst = P.__name__.startswith("sxi_")
+    D = hook.SDict if inst else dict
+    parent = "A" + s
+    raw = D()
+    raw[third] = D(type="object", properties=D(x=D(type="string")))
+    props = D()
+    props[t] = D(type="string")
+    props["zz"] = D(type="array", items=D(type="string"))
+    raw[parent] = D(type="object", properties=props)
+    if len(raw) != 2:
+        return None
+    ctx = ext.build_schemas(raw, D(schemas=raw))
+    out = []
+    for k, v in ctx.parsed_schemas.items():
+        out.append(("schema", k, v.name))
+        for pk, pv in (v.properties or {}).items():
+            out.append(("prop", pk, pv.name, pv.type, pv.items.name if pv.items is not None else None))
+    return out
+
+
+class IdNames(Obligation):
+    functions = ["pyopenapi_gen.core.parsing.schema_parser:_parse_properties", "pyopenapi_gen.core.parsing.schema_parser:_parse_schema", "pyopenapi_gen.core.loader.schemas.extractor:build_schemas"]
+    alphabet = ranges_of_pts([ord(c) for c in "abAB"])
+
+    def __init__(self):
+        self.name = "id_derived_names"
+        self.bounds = {"names": "parent A<s>, property <t>, third schema A<u><v>: s, t, u, v one symbolic character each over 'abAB'", "id()": "a fresh symbolic integer 1..99999 per run; two runs compared"}
+
+    def make_inputs(self, e):
+        from symx.core import mk_sym_int
+
+        return {"s": mk_sym_str(1, "s", self.alphabet), "t": mk_sym_str(1, "t", self.alphabet), "u": mk_sym_str(1, "u", self.alphabet), "v": mk_sym_str(1, "v", self.alphabet),
+                "id1": mk_sym_int("id1", 1, 99999), "id2": mk_sym_int("id2", 1, 99999)}
+
+    def run_sym(self, inp):
+        P = _I()
+        third = "A" + inp["u"] + inp["v"]
+        outs = []
+        for which in ("id1", "id2"):
+            saved = hook.ENV.get("id")
+            hook.ENV["id"] = lambda obj, w=which: inp[w]
+            try:
+                outs.append(call_catching(k_id_names, P, inp["s"], inp["t"], third))
+            finally:
+                if saved is None:
+                    hook.ENV.pop("id", None)
+                else:
+                    hook.ENV["id"] = saved
+        return tuple(outs)
+
+    def run_real(self, inp):
+        r = call_catching(k_id_names, _R(), inp["s"], inp["t"], "A" + inp["u"] + inp["v"])
+        return (r, r)
+
+    def normalise(self, r):
+        def n(x):
+            if isinstance(x, (list, tuple)):
+                return [n(y) for y in x]
+            return _simp(x)
+
+        return n(r[0]) if not isinstance(r[0], Raised) else r[0]
+
+    def prop(self, inp, r):
+        a, b = r
+        if a is None or b is None:
+            return a is None and b is None
+        if isinstance(a, Raised) or isinstance(b, Raised):
+            return isinstance(a, Raised) and isinstance(b, Raised)
+
+        def eq(x, y):
+            if isinstance(x, (list, tuple)) and isinstance(y, (list, tuple)):
+                return len(x) == len(y) and all(eq(p, q) for p, q in zip(x, y))
+            if x is None or y is None:
+                return x is y
+            return len(x) == len(y) and bool(x == y)
+
+        return eq(a, b)
+
+    def describe_violation(self, inp, r):
+        return "schemas A%s{%s, zz} and A%s%s: the result names depend on id(): %r vs %r" % (_simp(inp["s"]), _simp(inp["t"]), _simp(inp["u"]), _simp(inp["v"]), self.normalise((r[0],)), self.normalise((r[1],)))
+
+
+def mk_id_names():
+    return IdNames()
+
+
 # ------------------------------------------------------------------ driver
 def specs(tier):
     q = tier == "quick"
@@ -582,6 +673,7 @@ def specs(tier):
     from props import c09h
 
     out.extend(c09h.specs(tier, "c09"))
+    out.append((MOD, "mk_id_names", ()))
     for kind in ("path_params", "op_tags"):
         out.append((MOD, "mk_set_order", (kind, 2, "reverse")))
         out.append((MOD, "mk_set_order", (kind, 3, "reverse" if q else "bits")))
